@@ -491,6 +491,19 @@ def rule_R6(ctx, repo, eng, imm, mut, rid='C09.R6'):
         rets = [n for n in walk_no_nested(f.node) if isinstance(n, ast.Return) and n.value is not None]
         idrets = [n for n in rets if norm(n.value) == arg]
         bad = False
+        # `return x if T else cls(...)`: the argument itself is handed back exactly when T holds
+        for n in rets:
+            v_ = n.value
+            while isinstance(v_, ast.IfExp):
+                for arm, pol in ((v_.body, True), (v_.orelse, False)):
+                    if norm(arm) == arg:
+                        t_ = norm(v_.test) if pol else 'not (%s)' % norm(v_.test)
+                        if not (pol and norm(v_.test) in ('%s.__class__ is %s' % (arg, c.name), 'type(%s) is %s' % (arg, c.name))) \
+                                and not (not pol and norm(v_.test) in ('%s.__class__ is not %s' % (arg, c.name), 'type(%s) is not %s' % (arg, c.name))):
+                            bad = True
+                            r.violated(key, common.site_of(f, n), '%s returns its argument itself under `%s`: only an object whose class is exactly %s may be shared (a mutable subclass instance would be aliased)'
+                                       % (key, t_, c.name), sure=True)
+                v_ = v_.orelse if not isinstance(v_.orelse, ast.IfExp) and isinstance(v_.body, ast.IfExp) and False else (v_.orelse if isinstance(v_.orelse, ast.IfExp) else (v_.body if isinstance(v_.body, ast.IfExp) else None))
         for n in idrets:
             g = getattr(n, '_parent', None)
             want = '%s.__class__ is %s' % (arg, c.name)
